@@ -7,6 +7,8 @@
 #include <vector>
 #include <algorithm>
 #include <sys/mman.h>
+#include <sys/syscall.h>
+#include <unistd.h>
 
 #if defined(__SANITIZE_ADDRESS__)
 #    define DSIM_ASAN 1
@@ -100,8 +102,30 @@ static void check_block(Hdr *h, const char *where) {
                            where, (unsigned long long)h->id, h->size, (unsigned long long)h->alloc_seq, i);
 }
 
+static const size_t HUGE = (size_t)1 << 30; // blocks this large are address space only: mapped without backing, never filled or scanned
+static std::vector<std::pair<void *, size_t>> g_huge_maps;
+static void *do_acquire_huge(size_t size) {
+    size_t cap = class_of(size);
+    size_t total = sizeof(Hdr) + GUARD + cap + GUARD;
+    total = (total + 4095) & ~(size_t)4095;
+    // raw system call: the sanitizer runtime would otherwise paint shadow memory for the whole (multi-GiB) range
+    void *m = (void *)syscall(SYS_mmap, nullptr, total, PROT_READ | PROT_WRITE, MAP_PRIVATE | MAP_ANONYMOUS | MAP_NORESERVE, -1, 0);
+    if (m == MAP_FAILED) { fprintf(stderr, "dsim: cannot map %zu bytes of address space\n", total); _Exit(2); }
+    g_huge_maps.emplace_back(m, total);
+    Hdr *h = (Hdr *)m;
+    h->cap = cap; h->magic = MAGIC_LIVE; h->id = S.next_id++; h->size = size; h->alloc_seq = sim::seq(); h->flags = 4; // bit2: huge
+    uint8_t *u = user_of(h);
+    memset(u - GUARD, GUARD_BYTE, GUARD);
+    memset(u + size, GUARD_BYTE, cap - size + GUARD);
+    S.live[u] = h;
+    S.total++;
+    sim::probe("huge_block_mapped");
+    return u;
+}
+
 static void *do_acquire(size_t size) {
     if (S.cfg.yield_points) sim::yield(sim::PK_HARNESS, nullptr, 1);
+    if (size >= HUGE) return do_acquire_huge(size);
     size_t cap = class_of(size ? size : 1);
     Hdr *h = nullptr;
     bool carved = false;
@@ -154,7 +178,7 @@ static void do_release(void *p, bool internal = false) {
     Hdr *h = it->second;
     check_block(h, "release");
     uint8_t *u = user_of(h);
-    if (!internal && ((h->flags & 1) || S.require_zero_all)) {
+    if (!internal && !(h->flags & 4) && ((h->flags & 1) || S.require_zero_all)) {
         S.zero_checked++;
         for (size_t i = 0; i < h->size; i++)
             if (u[i] != 0)
@@ -163,6 +187,11 @@ static void do_release(void *p, bool internal = false) {
     }
     if (S.hook && !internal) S.hook(p, h->size, S.hook_ud); // only releases requested by the code under test
     S.live.erase(it);
+    if (h->flags & 4) { // huge: give the address space back
+        for (size_t i = 0; i < g_huge_maps.size(); i++)
+            if (g_huge_maps[i].first == (void *)h) { syscall(SYS_munmap, g_huge_maps[i].first, g_huge_maps[i].second); g_huge_maps.erase(g_huge_maps.begin() + (long)i); break; }
+        return;
+    }
     h->magic = MAGIC_FREE;
     memset(u, FREE_BYTE, h->cap + GUARD);
     POISON(u, h->cap + GUARD);
@@ -183,6 +212,17 @@ static void *vt_realloc(struct aws_allocator *, void *old, size_t oldsize, size_
     Hdr *h = it->second;
     check_block(h, "realloc");
     (void)oldsize;
+    if ((h->flags & 4) || newsize >= HUGE) {
+        // huge blocks: new mapping, copy only the first and last 64 KiB worth of the common prefix (the rest is untouched address space)
+        size_t keep = h->size < newsize ? h->size : newsize;
+        void *np = do_acquire(newsize);
+        size_t edge = keep < 65536 ? keep : 65536;
+        memcpy(np, old, edge);
+        if (keep > edge) memcpy((uint8_t *)np + keep - edge, (uint8_t *)old + keep - edge, edge);
+        do_release(old, true);
+        S.moved++;
+        return np;
+    }
     if (newsize <= h->cap && !S.rng.chance(S.cfg.p_move)) {
         // stays in place
         uint8_t *u = user_of(h);
@@ -205,6 +245,8 @@ struct aws_allocator *create(const Config &cfg) {
         free(h);
     }
     S.all.clear();
+    for (auto &m : g_huge_maps) syscall(SYS_munmap, m.first, m.second);
+    g_huge_maps.clear();
     if (g_arena && g_arena_high) {
         UNPOISON(g_arena, g_arena_high);
         memset(g_arena, 0xEE, g_arena_high); // nothing of an earlier run can be read back
